@@ -173,7 +173,9 @@ def execute(trace: dict, keep_log: bool = False) -> Outcome:
             except Exception as e:
                 t_exc, raw = e, None
             before = [(cv(ov.value), fx(ov.previous_value)) for ov in E.output_variables]
-            probes = [Armed(ov.defuzzifier, 10**9, "ValueError") if ov.defuzzifier is not None else None for ov in E.output_variables]
+            entry: dict[int, tuple] = {}  # fuzzy output of each variable at the instant its defuzzifier was entered
+            probes = [Armed(ov.defuzzifier, 10**9, "ValueError", on_call=lambda agg, j=j: entry.__setitem__(j, fuzzy_snapshot(agg)))
+                      if ov.defuzzifier is not None else None for j, ov in enumerate(E.output_variables)]
             injector = None
             restore = None
             snap: dict = {}
@@ -183,7 +185,8 @@ def execute(trace: dict, keep_log: bool = False) -> Outcome:
                 ov = E.output_variables[j]
                 if fkind == "faulty_defuzz" and ov.defuzzifier is not None:
                     probes[j] = None
-                    injector = Armed(ov.defuzzifier, 1, op["exc"], snapshot=lambda agg: snap.setdefault("fuzzy", fuzzy_snapshot(agg)))
+                    injector = Armed(ov.defuzzifier, 1, op["exc"], snapshot=lambda agg: snap.setdefault("fuzzy", fuzzy_snapshot(agg)),
+                                     on_call=lambda agg, j=j: entry.__setitem__(j, fuzzy_snapshot(agg)))
                 elif fkind == "none_defuzz":
                     saved = ov.defuzzifier
                     ov.defuzzifier = None
@@ -237,7 +240,26 @@ def execute(trace: dict, keep_log: bool = False) -> Outcome:
                 if not isinstance(raised, Exception) and not injected:
                     raise raised
                 if not injected or t_exc is not None:
-                    # natural failure (misconfiguration both engines share): not C12's business, resynchronise
+                    # natural failure (a misconfiguration both engines share): the raw values of the outputs defuzzified
+                    # before it are unknown, but "if defuzzification raises, value, previous value and fuzzy output are
+                    # unchanged" can still be judged for the variable whose defuzzifier was running and the ones after it
+                    # the variable whose defuzzifier was entered and did not return
+                    idx = [j for j, p in enumerate(probes) if p is not None and p.state["calls"] > p.state.get("returned", 0)]
+                    f = idx[-1] if idx else None
+                    if f is not None and isinstance(raised, Exception):
+                        st.hit("probes.natural_failure_inside_a_defuzzifier")
+                        for j in range(f, len(models)):
+                            ov = E.output_variables[j]
+                            if (cv(ov.value), fx(ov.previous_value)) != before[j]:
+                                viol = Violation("state_changed_by_failed_defuzzification", i, output=j, failing_output=f, fault="natural",
+                                                 exception=type(raised).__name__)
+                                break
+                        if viol is None and f in entry and fuzzy_snapshot(E.output_variables[f].fuzzy) != entry[f]:
+                            viol = Violation("fuzzy_output_changed_by_failed_defuzzification", i, output=f, fault="natural",
+                                             exception=type(raised).__name__)
+                    if viol is not None:
+                        out.violation = viol
+                        break
                     resync("natural_failure")
                     emit(f"{i} {kind} natural failure {type(raised).__name__}")
                     continue
@@ -246,8 +268,19 @@ def execute(trace: dict, keep_log: bool = False) -> Outcome:
                 if fkind == "none_defuzz":
                     f = snap["none"]
                 else:
-                    idx = [j for j, c in enumerate(called) if c]
+                    armed = list(probes)
+                    if isinstance(injector, Armed) and fkind == "faulty_defuzz":
+                        armed[op["out"] % len(models)] = injector
+                    idx = [j for j, p in enumerate(armed) if p is not None and p.state["calls"] > p.state.get("returned", 0)]
                     f = idx[-1] if idx else None
+                    if f is None and any(called):
+                        # every entered defuzzifier returned: the failure came from outside a defuzzifier call
+                        st.hit("outcomes.injected_failure_outside_defuzzifier_after_some_outputs")
+                        f = max(j for j, c in enumerate(called) if c) + 1
+                        f = f if f < len(models) else None
+                        if f is None:
+                            resync("failure_after_all_outputs")
+                            continue
                     if f is None:
                         st.hit("probes.failure_during_activation")
                     else:
@@ -269,10 +302,11 @@ def execute(trace: dict, keep_log: bool = False) -> Outcome:
                                          before=list(before[j][0]) + [before[j][1]],
                                          after=list(cv(ov.value)) + [fx(ov.previous_value)])
                         break
-                if viol is None and "fuzzy" in snap and f is not None:
-                    if fuzzy_snapshot(E.output_variables[f].fuzzy) != snap["fuzzy"]:
+                if viol is None and f is not None and (f in entry or "fuzzy" in snap):
+                    ref = entry.get(f, snap.get("fuzzy"))
+                    if fuzzy_snapshot(E.output_variables[f].fuzzy) != ref:
                         viol = Violation("fuzzy_output_changed_by_failed_defuzzification", i, output=f, fault=fkind)
-                    elif snap["fuzzy"]:
+                    elif ref:
                         st.hit("probes.failure_with_nonempty_fuzzy_output")
                 sig.append(f"F{fkind[:8]}{'a' if f is None else f}")
                 emit(f"{i} fault {fkind} raised {type(raised).__name__} at_output={f}")
